@@ -76,8 +76,8 @@ def TxIn.parse : Parser TxIn := fun b =>
   | .ok ([.bytes h, .int i, .bytes s, .int q], r) => .ok (⟨h, i, s, q, []⟩, r)
   | .ok _ => .error .typeError
 
-/-- `TxIn.is_coinbase` -/
-def TxIn.isCoinbase (t : TxIn) : Bool := t.prevHash == zero32
+/-- `TxIn.is_coinbase`: the null outpoint is the zero hash together with index 0xffffffff -/
+def TxIn.isCoinbase (t : TxIn) : Bool := t.prevHash == zero32 && t.prevIndex == 0xFFFFFFFF
 
 def TxOut.stream (t : TxOut) : Except Err Bytes :=
   streamStruct tbl F.txOut_stream [.int t.value, .bytes t.script]
@@ -109,7 +109,7 @@ def stream (tx : Tx) (blank : Bool := false) (includeWitnessData : Bool := true)
   let ins ← streamList (fun t => TxIn.stream t blank) tx.ins
   let nout ← streamStruct tbl F.tx_stream_lenTxsOut [.int tx.outs.length]
   let outs ← streamList TxOut.stream tx.outs
-  let wit ← if iw then streamList (fun t => streamWitness t.witness) tx.ins else pure []
+  let wit ← (if iw then streamList (fun t => streamWitness t.witness) tx.ins else .ok [])
   let lock ← streamStruct tbl F.tx_stream_lockTime [.int tx.lockTime]
   pure (v ++ ((if iw then [0, 1] else []) ++ (nin ++ (ins ++ (nout ++ (outs ++ (wit ++ lock)))))))
 
@@ -154,7 +154,7 @@ def parseBtc (allowSegwit : Bool) : Parser Tx := fun b => do
   let (ins, b) ← parseN TxIn.parse nin b
   let (nout, b) ← parseSatoshiInt v2o b
   let (outs, b) ← parseN TxOut.parse nout b
-  let (ins, b) ← if isSegwit then parseWitnesses ins b else pure (ins, b)
+  let (ins, b) ← (if isSegwit then parseWitnesses ins b else .ok (ins, b))
   let (lock, b) ← parseInt1 F.tx_parse_lockTime b
   pure (⟨version, ins, outs, lock⟩, b)
 
@@ -177,8 +177,8 @@ def parseLtc : Parser Tx := fun b => do
   let (ins, b) ← parseN TxIn.parse nin b
   let (nout, b) ← parseSatoshiInt none b
   let (outs, b) ← parseN TxOut.parse nout b
-  let (ins, b) ← if isSegwit then parseWitnesses ins b else pure (ins, b)
-  let (_, b) ← if hasMweb then readByte b else pure (0, b)   -- `mweb_tx_type`, read and ignored
+  let (ins, b) ← (if isSegwit then parseWitnesses ins b else .ok (ins, b))
+  let (_, b) ← (if hasMweb then readByte b else .ok (0, b))   -- `mweb_tx_type`, read and ignored
   let (lock, b) ← parseInt1 F.ltcTx_parse_lockTime b
   pure (⟨version, ins, outs, lock⟩, b)
 
